@@ -1401,6 +1401,17 @@ def sqrtm_hermitian(mk, n, kind):
         mk.eq("== scipy.linalg.sqrtm", R, scla.sqrtm(A), tol=1e-7)
         mk.eq("herm=False route agrees", np.asarray(qu.sqrtm(A, herm=False)), R, tol=1e-7)
         mk.raises("sparse input is rejected (documented: dense only)", lambda: qu.sqrtm(sp.csr_matrix(A)), (NotImplementedError,))
+        # [numeric-only] a Hermitian but INDEFINITE operator: the principal root is complex (sqrt of the negative
+        # eigenvalues); the symbolic run assumes a positive spectrum (sqrt of a symbol of unknown sign is not polynomial)
+        rng = np.random.default_rng(n + (7 if kind == "cplx" else 0))
+        B = rng.normal(size=(n, n)) + (1j * rng.normal(size=(n, n)) if kind == "cplx" else 0)
+        Q, _ = np.linalg.qr(B)
+        lam = np.array([-1.5, 0.75, 2.0][:n])
+        Ai = (Q * lam[None, :]) @ Q.conj().T
+        Ri = np.asarray(qu.sqrtm(Ai, herm=True))
+        mk.eq("[numeric-only] indefinite Hermitian A: sqrtm(A) @ sqrtm(A) == A", Ri @ Ri, Ai, tol=1e-9)
+        Rg = np.asarray(qu.sqrtm(Ai, herm=False))
+        mk.eq("[numeric-only] indefinite Hermitian A: the herm=False route is a root as well", Rg @ Rg, Ai, tol=1e-7)
 
 
 @obligation(PROP, params=[{"n": 2, "kind": "cplx"}, {"n": 3, "kind": "real"}], exc_is_violation=True, rounds=2, rounds2=3, timeout_s=400)
